@@ -61,6 +61,8 @@ struct DatagramDecoder<D> {
 struct PendingRequest {
     stream: Box<dyn http_codec::Stream>,
     id: log_utils::IdChain<u64>,
+    /// Whether an ICMP multiplexer can be made at all
+    icmp_available: bool,
 }
 
 impl HttpDownstream {
@@ -115,6 +117,7 @@ impl Downstream for HttpDownstream {
                     break Ok(Some(Box::new(PendingRequest {
                         stream,
                         id: stream_id,
+                        icmp_available: self.context.icmp_forwarder.is_some(),
                     })));
                 }
                 net_utils::Channel::Ping => {
@@ -252,6 +255,13 @@ impl downstream::PendingRequest for PendingRequest {
         match request.uri.authority().map(http::uri::Authority::as_str) {
             Some(HEALTH_CHECK_AUTHORITY) if request.method == http::Method::CONNECT => {
                 self.stream.split().1.send_ok_response(true).map(|_| None)
+            }
+            Some(ICMP_AUTHORITY)
+                if request.method == http::Method::CONNECT && !self.icmp_available =>
+            {
+                log_id!(debug, self.id, "ICMP forwarding isn't set up");
+                fail_request(self.stream, BAD_STATUS_CODE, vec![]);
+                Ok(None)
             }
             Some(UDP_AUTHORITY) | Some(ICMP_AUTHORITY)
                 if request.method == http::Method::CONNECT =>
